@@ -28,6 +28,8 @@ type lwrite struct {
 	num  uint64
 	// addSub realises a balance write as AddBalance / SubBalance of the difference to the current balance
 	addSub bool
+	// suicide realises a balance write to zero as Suiside (what the EVM's SELFDESTRUCT calls)
+	suicide bool
 }
 
 func (w lwrite) String() string {
@@ -66,6 +68,11 @@ func applyWrites(l ethledger.StateLedger, ws []lwrite) {
 			l.GetBalance(addr)
 		case "balance":
 			tgt := new(big.Int).SetUint64(w.num)
+			// only a contract destroys itself: the account exists and has code (the ledger's Suiside presumes the record)
+			if sd, ok := l.(interface{ Suiside(*types.Address) bool }); ok && w.suicide && w.num == 0 && len(l.GetCode(addr)) > 0 {
+				sd.Suiside(addr)
+				break
+			}
 			bl, ok := l.(balanceAdjuster)
 			if !w.addSub || !ok {
 				l.SetBalance(addr, tgt)
